@@ -12,6 +12,7 @@
 #include <cstring>
 #include <cstdint>
 #include <stdexcept>
+#include <exception>
 #include <memory>
 
 #include "format_specification.h"
@@ -217,8 +218,23 @@ namespace CDNS {
          */
         template<typename T>
         void rotate_output(const T& out) {
-            flush_buffer();
+            std::exception_ptr error;
+
+            // Data that can't be flushed belongs to the output being closed. Report the failure,
+            // but only after the new output is open, so that the caller can carry on with it.
+            try {
+                flush_buffer();
+            }
+            catch (...) {
+                error = std::current_exception();
+                m_p = m_buffer;
+                m_avail = BUFFER_SIZE;
+            }
+
             m_cos->rotate_output(out);
+
+            if (error)
+                std::rethrow_exception(error);
         }
 
         private:
